@@ -182,8 +182,18 @@ func runProperty(id, tier string, start time.Time) (code int) {
 	if *flagControl != "" {
 		// control mode: print violated keys, never write evidence
 		n := 0
+		knownC, _ := loadKnown(*flagVerif)
 		for _, o := range r.Obls {
 			if o.Status == "violated" {
+				isKnown := false
+				for _, k := range knownC {
+					if k.Status == "known" && k.Property == id && k.Key == o.Key {
+						isKnown = true
+					}
+				}
+				if isKnown {
+					continue
+				}
 				fmt.Printf("CONTROL-FIRED %s :: %s\n", o.Key, o.Detail)
 				n++
 			}
